@@ -143,6 +143,17 @@ def run(ctx):
                 if not orig_ok:
                     okc = False
                     ctx.violation("CAS-2", (lb.path, "fallback"), "a path returns %s instead of the original test case" % txt[:120], lb.loc())
+                elif not any("to_lowercase" in a for a, _ in label):
+                    # the original is kept without its lower-cased form having been looked at: only a comparison with that form (other length, engine cannot fold it back)
+                    # justifies keeping a test case that differs from it
+                    okc = False
+                    if not any(re.search(r"is_uppercase|is_lowercase", a) for a, _ in label):
+                        ctx.undecided("CAS-2", lb.path, "a test case is kept as it is on a path decided by %s, without a comparison with its lower-cased form"
+                                      % (", ".join("%s=%s" % (a[:60], val) for a, val in label) or "nothing"), lb.loc())
+                        continue
+                    ctx.violation("CAS-2", (lb.path, "kept without comparison"), "a test case is kept as it is on a path that never looks at its lower-cased form (decided by %s): a string that "
+                                  "lower-casing would change - e.g. a titlecase letter, which is not `uppercase` - stays apart from its case variants, so test cases that differ only by "
+                                  "case no longer collapse" % (", ".join("%s=%s" % (a[:60], val) for a, val in label) or "nothing"), lb.loc())
         if okc:
             ctx.ok("CAS-2", lb.path, {"paths": len(leaves)}, lb.loc())
         # call chain guarded by the setting
